@@ -260,6 +260,13 @@ def run(tier, replay=None):
     # the excluded input (dstep on a categorical feature without values) is probed in a separate process
     rcp, outp = vlib.sh([exe, "probe-dstep-empty"], timeout=120)
     probe = "survives: " + outp.strip().split("\n")[-1] if "PROBE-OK" in outp else "crashes (exit code %d)" % rcp
+    if "PROBE-OK nofit" not in outp:
+        # fixed in /repo (score_kbest clamps max_kbest to the number of bins): a crash / a fit here is the defect coming back
+        r.violation("dstep-empty", {"kind": "dstep-table fitted on a categorical feature without any selected value: "
+                                            "score_kbest reads mapping[0] of an empty vector (out of bounds)",
+                                    "input": "3 samples, one sclass feature (2 classes) with no value set, gradients (1,1,1), dstep-table, rss",
+                                    "exit": rcp, "output": outp[-600:], "replay_cmd": "%s probe-dstep-empty" % exe},
+                    fingerprint="C10-dstep-empty-feature-out-of-bounds")
     vlib.handle_coq_failure(r, cres)
     vlib.proof_coverage(r, cres, "make -C coq theories/Properties_C10.vo && coqc theories/Properties_C10.v (Print Assumptions)",
                         ["tools/translate.py (9 integer kernels of src/wlearner/{util,table,dtree}.cpp, src/dataset/iterator.cpp)",
@@ -291,9 +298,10 @@ def run(tier, replay=None):
     cov["mismatches"] = len(mism)
     cov["impl_direct_failures"] = len(impl_fail)
     cov["samples"] = samples
-    cov["excluded_inputs"] = ["dstep-table fit when some categorical feature has no value among the selected samples: "
-                              "score_kbest(.., max_kbest = 1) reads mapping[0] of an empty vector (bins == 0). Probe of this run: the "
-                              "library " + probe]
+    cov["excluded_inputs"] = []
+    cov["dstep_empty_feature_probe"] = ("dstep-table on a categorical feature without any selected value (bins == 0; out-of-bounds "
+                                        "read before the repo fix, now `no fit`): the library " + probe +
+                                        "; such inputs are part of the in-process search (counter dstep_excluded = cases containing one)")
     cov["unproved_clauses_searched"] = [
         "floating-point scores: |score - optimum| <= 1e-9 * sum r^2 against the exact model and against a long-double brute force "
         "(the theorems are over Q)",
@@ -308,6 +316,5 @@ def run(tier, replay=None):
                           "reported as observation `reproduce-kbest-table`, k-best is not in the optimality clause of C10)"]
     r.assumptions = ["finite dyadic feature values and gradients of magnitude <= ~100 (sums exact or within 1e-9 relative)",
                      "no FMA contraction / x87 excess precision in the library build (x86-64 SSE2, as built here)",
-                     "NDEBUG build: the assertions of fit / scale are respected by the harness",
-                     "at least one selected value per categorical feature when the discrete-step table is fitted (see excluded_inputs)"]
+                     "NDEBUG build: the assertions of fit / scale are respected by the harness"]
     return r.finish("proof")
